@@ -38,8 +38,8 @@ theorem sizeOf_keysOf_lt (kvs : List (Obj × Obj)) : sizeOf (keysOf kvs) < 1 + s
       simp only [keysOf, List.map_cons, List.cons.sizeOf_spec, Prod.mk.sizeOf_spec] at *
       omega
 
-/-- Iteration restricted to what the model covers: `str`/`bytes` payloads at collection
-positions are outside the model (the driver answers `unmodelled` for them). -/
+/-- Iteration of a container payload: the items are sub-terms of the payload (`iterItems_lt`).  `str` / `bytes`
+payloads are iterable too: see `leafItems`. -/
 def iterItems (o : Obj) : Option (List Obj) :=
   match o with
   | .coll _ xs => some xs
@@ -50,6 +50,26 @@ theorem iterItems_lt {o xs} (h : iterItems o = some xs) : sizeOf xs < sizeOf o :
   cases o <;> simp [iterItems] at h
   case coll k ys => subst h; simp; omega
   case dict kvs => subst h; have := sizeOf_keysOf_lt kvs; simp; omega
+
+/-- What iterating a `str` / `bytes` payload yields (`for e in obj`): 1-character strings / ints.  These items are
+not sub-terms of the payload (and a 1-character string yields itself), so the structuring functions hand such
+payloads to a separate family (`stLF` / `stLD`) whose recursion is bounded by the type and, through classes, by a
+fuel (`leafFuel`). -/
+def leafItems : Obj → Option (List Obj)
+  | .str s => some (s.toList.map (fun c => .str (String.singleton c)))
+  | .bytes h => some ((hexBytes h.toList).map (fun n => Obj.int (Int.ofNat n)))
+  | _ => Option.none
+
+/-- `for e in obj` for any payload: container items, or the characters / byte values of a `str` / `bytes` -/
+def allItems (o : Obj) : Option (List Obj) :=
+  match iterItems o with
+  | some xs => some xs
+  | Option.none => leafItems o
+
+/-- Bound on the number of tuple-strategy class / NamedTuple positions a `str` item can be threaded through: a
+1-character string iterates to itself, so a longer chain revisits a class with the same payload -- the real code
+recurses until `RecursionError`; the model answers "raises" when the fuel runs out. -/
+def leafFuel (w : World) : Nat := w.classes.length + 1
 
 /-- the key under which field `f` is read/written by the default hooks -/
 def Field.key (f : Field) : Obj := .str f.name
